@@ -25,4 +25,10 @@ def queries(ctx, extra):
                         group=".ao header/sections", bound="file of 0..190 symbolic bytes"))
     # foamFrBuffer on arbitrary bytes (harness/c17_foam.c): no verdict for 3 symbolic bytes in 1800 s (symbolic tag =>
     # every decoder case x recursion); not registered, not claimed.
+    for nm, d in (("ar_longname", ["-DINDIRECT"]), ("ar_directname", [])):
+        qs.append(Query(name=nm, harness="c17_archive.c", entry="h_ar_longname", stubs=["stubs.c", "stubs_print.c"],
+                        defs=["-DV_NO_STO_STUBS"] + d, unwind=18, unwindset=["body_h_ar_longname.1:46"], timeout=600, mem_gb=10,
+                        group="archive member names",
+                        bound="one GNU-format member header, every 16-byte name field that %s with '/', name table of 12 arbitrary characters"
+                              % ("starts" if d else "does not start")))
     return qs
